@@ -6,6 +6,7 @@ import VotelibDriver.C13
 import VotelibDriver.C05
 import VotelibDriver.C12
 import VotelibModel.ScaleFamilies
+import VotelibModel.Mono
 open Lean
 namespace VL.Drv.C11
 open VL VL.Convert
@@ -38,6 +39,11 @@ def handleOwn (op : String) (j : Json) : Option (Except String Json) :=
     | .ok keys, .ok sel => pure (withKeys sel keys)
     | _, .error e => pure (errJson e)
     | .error e, _ => pure (errJson e)
+  | "c11_bucklin" => some do
+    -- PreferenceAddition(split_equal_rankings=split).evaluate(votes, 1)
+    let p ← C13.pDict C13.pBallot (← j.getObjVal? "votes")
+    let split ← j.getObjValAs? Bool "split"
+    pure (exceptJson slotsJson (if split then Mono.evalBucklinSplit p else Mono.evalBucklin p))
   | "c11_condorcet" => some do
     -- ranked profile (scaled) + the pairwise dictionary the real converter made of it (insertion order kept)
     let p ← C05.getProfile j "profile"
